@@ -8,12 +8,43 @@
 
 namespace etl {
 
+namespace detail {
+
+/// \brief n1/d1 < n2/d2 for positive denominators, without forming a product:
+/// the integer parts are compared, then the reciprocals of the fractional parts
+/// (Euclid's algorithm on both fractions at once).
+[[nodiscard]] constexpr auto ratio_less_impl(intmax_t n1, intmax_t d1, intmax_t n2, intmax_t d2) noexcept -> bool
+{
+    auto flip = false;
+    while (true) {
+        // n == q * d + f with 0 <= f < d
+        auto const q1 = n1 % d1 < 0 ? n1 / d1 - 1 : n1 / d1;
+        auto const f1 = n1 % d1 < 0 ? n1 % d1 + d1 : n1 % d1;
+        auto const q2 = n2 % d2 < 0 ? n2 / d2 - 1 : n2 / d2;
+        auto const f2 = n2 % d2 < 0 ? n2 % d2 + d2 : n2 % d2;
+        if (q1 != q2) {
+            return flip ? q2 < q1 : q1 < q2;
+        }
+        if (f1 == 0 or f2 == 0) {
+            return flip ? (f2 == 0 and f1 != 0) : (f1 == 0 and f2 != 0);
+        }
+        // f1/d1 < f2/d2 iff d2/f2 < d1/f1
+        n1   = d1;
+        d1   = f1;
+        n2   = d2;
+        d2   = f2;
+        flip = not flip;
+    }
+}
+
+} // namespace detail
+
 /// \brief Compares two ratio objects for equality at compile-time. If the ratio
 /// R1 is less than the ratio R2, provides the member constant value equal true.
 /// Otherwise, value is false.
 /// \ingroup ratio
 template <typename R1, typename R2>
-struct ratio_less : bool_constant<(R1::num * R2::den < R2::num * R1::den)> { };
+struct ratio_less : bool_constant<detail::ratio_less_impl(R1::num, R1::den, R2::num, R2::den)> { };
 
 /// \ingroup ratio
 template <typename R1, typename R2>
